@@ -177,4 +177,6 @@ class GPO(Algorithm):
         -------
 
         """
+        if not self.V_x:  # no point has been validated yet
+            return self.goodx
         return self.V_x[np.argmax(np.array(self.V_reward))]
